@@ -112,6 +112,9 @@ func c15EnterDir() func() {
 		return func() {}
 	}
 	_ = os.WriteFile(filepath.Join(dir, "c15_short.txt"), []byte("one line only\n"), 0o644)
+	_ = os.Mkdir(filepath.Join(dir, "c15_dir"), 0o755)
+	_ = os.WriteFile(filepath.Join(dir, "c15_empty.txt"), nil, 0o644)
+	_ = os.WriteFile(filepath.Join(dir, "c15_huge.txt"), []byte(strings.Repeat("x", 1<<20)), 0o644)
 	_ = os.Chdir(dir)
 	return func() {
 		_ = os.Chdir(old)
@@ -470,7 +473,7 @@ func judgeRec(w *core.W, c *recCase) {
 		case "long-cjk":
 			panic(strings.Repeat("\u754c", 120) + c.Marker) // more than 256 bytes, fewer than 256 characters
 		case "line-directive":
-			c15PanicFarLine(c.Marker) // compiled under a //line directive that points past the end of an existing file
+			c15PanicAt(len(c.Seq)+c.Pre+len(c.Mid), c.Marker) // compiled under //line directives that point past the end of a file, at a directory, through a plain file, at nothing, at an empty file, at one enormous line
 		case "bad-status-writeheader":
 			ctx.ResponseWriter().WriteHeader(42) // the underlying writer panics, as net/http's does; nothing has been sent
 		case "before-function-panics":
